@@ -39,6 +39,7 @@ type fsEvent struct {
 	Started  bool
 	Returned bool
 	Err      error
+	NoFormat bool // the event carries bytes for ANOTHER format only: the sink must refuse it
 }
 
 type fsCfgDesc struct {
@@ -207,6 +208,10 @@ func runFileSink(rc *RunCtx, prop string, crash bool, faults bool) {
 
 	doWrite := func(e *fsEvent) {
 		ev := &el.Event{Type: "t", CreatedAt: time.Now(), Formatted: map[string][]byte{fkey: e.Data}}
+		if e.NoFormat {
+			ev.Formatted = map[string][]byte{"some-other-format": e.Data}
+			simrt.Probe("fs.event-without-the-format")
+		}
 		stamp++
 		e.Call = stamp
 		e.CallStep = sim.Step
@@ -268,6 +273,9 @@ func runFileSink(rc *RunCtx, prop string, crash bool, faults bool) {
 					n = 1 + tp.Choose(30, "len-small")
 				}
 				e := &fsEvent{ID: evID, Data: mkPayload(evID, n)}
+				if !seqMode && tp.Choose(12, "noformat") == 0 {
+					e.NoFormat = true
+				}
 				events = append(events, e)
 				prog = append(prog, step{kind: "write", ev: e})
 				pd = append(pd, fmt.Sprintf("write#%d(%dB)", e.ID, n))
@@ -402,6 +410,9 @@ func runFileSink(rc *RunCtx, prop string, crash bool, faults bool) {
 			} else if len(r.Data) > 0 {
 				partial++
 			}
+		}
+		if e.NoFormat && e.Returned && e.Err == nil {
+			rc.Failf(prop+".unformatted-acknowledged", "", "event #%d carries no bytes for the sink's format, yet Process reported success", e.ID)
 		}
 		switch {
 		case acked && full == 0:
